@@ -12,9 +12,12 @@ META = {
             "reader to exactly the original C string and exactly the rest (delimited AND reversible, any continuation); the URL style "
             "is undone by RFC 3986 percent-decoding. For EVERY logformat (literal text without LF, codes under any of the five "
             "quoting styles incl. the style inherited from surrounding quote/bracket characters as Format::Token::parse tracks it) the "
-            "record assembled by Format::assemble + SquidCustom contains exactly one LF, its last byte. REFUTED for the bare mime-blob "
-            "style (space passes: `%[un` of the built-in squid format is split by a user name containing a space - known finding "
-            "C34-mimeblob-space, confirmed on the running proxy) with the partial statement: output is printable ASCII without "
+            "record assembled by Format::assemble + SquidCustom contains exactly one LF, its last byte. The user-name field of the "
+            "built-in squid format (QuoteUrlEncodeUsername = QuoteMimeBlob + spaces rewritten to %20, as repaired by /repo a257b3d, "
+            "former finding F11) is proved, for EVERY name, free of space/CR/LF, delimited by the next space and decodable back to the "
+            "name. What still deviates (known finding C34-mimeblob-bare-space): the mime-blob style itself leaves SP as it is "
+            "(documented), so a custom logformat using a %[code outside brackets is split by a value containing a space - REFUTED "
+            "witness + partial statement: output is printable ASCII without "
             "brackets. Hand-written per-byte rules are proved equal to the tables regenerated from the real functions; which function "
             "each LOG_QUOTE_ style runs, the modifier bytes, the guard around the switch and which %codes set quote=1 are regenerated "
             "from src/format/{ByteCode.h,Token.cc,Format.cc} on every run. Tie: unit differential run of the extracted model against "
@@ -175,8 +178,17 @@ def unit_oracle(case, out):
         return ("oracle:raw-bracket:mime", "mime-blob form contains a raw bracket")
     if dec_mime(m) != s:
         return ("oracle:not-reversible:mime", "mime-blob form does not decode to the value")
-    if f["user"] != ("null" if not s else f["mime"]):
-        return ("oracle:username-quote", "QuoteUrlEncodeUsername differs from QuoteMimeBlob / null for empty")
+    if not s:
+        if f["user"] != "null":
+            return ("oracle:username-quote", "QuoteUrlEncodeUsername gives a string for an empty name")
+    else:
+        u = unhx(f["user"])
+        if b" " in u:
+            return ("oracle:raw-space:user", "the quoted user name contains a raw space")
+        if b"\n" in u or b"\r" in u:
+            return ("oracle:raw-line-break:user", "the quoted user name contains a raw CR or LF")
+        if dec_mime(u) != s:
+            return ("oracle:not-reversible:user", "the quoted user name does not decode to the name")
     if dec_pct(unhx(f["url"])) != s:
         return ("oracle:not-reversible:url", "URL form does not percent-decode to the value")
     sh = unhx(f["shell"])
